@@ -13,16 +13,16 @@ def run_c05(cases, nshards=None):
     def work(sh):
         if not sh:
             return {}
-        inp = "".join(json.dumps({"id": c["id"], "src": c["src"], "times": c["times"], "inputs": c["inputs"]}) + "\n" for c in sh)
-        p = mmh("C05", [], input=inp)
-        q = driver("C05", input=p.stdout)
+        raw = run_isolated(os.path.join(BIN, "c05"), [(c["id"], json.dumps({"id": c["id"], "src": c["src"], "times": c["times"], "inputs": c["inputs"]})) for c in sh])
+        lines = "".join("\t".join([i] + f + ["-"] * (3 - len(f))) + "\n" for i, f in raw.items())
+        q = driver("C05", input=lines)
         res = {}
-        for a, b in zip(p.stdout.splitlines(), q.stdout.splitlines()):
+        for a, b in zip(lines.splitlines(), q.stdout.splitlines()):
             fa, fb = a.split("\t"), b.split("\t")
             if len(fa) >= 4 and len(fb) >= 2:
                 res[fa[0]] = (fa[1], fa[2], fa[3], fb[1])
         for c in sh:
-            res.setdefault(c["id"], ("harness-died rc=%s" % p.returncode, "-", "-", "skip:harness-died"))
+            res.setdefault(c["id"], ("harness-died", "-", "-", "skip:harness-died"))
         return res
     out = {}
     for r in parallel(shards, work, nproc=nshards):
